@@ -235,6 +235,8 @@ def run_unit(pid, unit, tier, seed, outdir, known_open):
         env[k] = str(v)
     for k, v in tp.get("env", {}).items():
         env[k] = str(v)
+    if "ASAN_OPTIONS_EXTRA" in env:   # appended to (not replacing) the engine's sanitizer options
+        env["ASAN_OPTIONS"] = env["ASAN_OPTIONS"] + ":" + env.pop("ASAN_OPTIONS_EXTRA")
     per = max(1, tp["cases"] // workers)
     procs = []
     for w in range(workers):
